@@ -28,6 +28,51 @@ def is_unchecked(c):
     return (c.res or c.deff or "") in (ARENA + "::get_unchecked", ARENA + "::get_unchecked_mut")
 
 
+def worklist_loop(body):
+    """(header, blocks) of a loop that is driven by a work list: `while let Some(x) = list.last() / list.pop()` with `push` / `extend` to a Vec inside"""
+    for h, bl in body.natural_loops().items():
+        takes = [bi for bi in bl if body.blocks[bi].term.k == "call" and body.blocks[bi].term.callee.method in ("last", "pop", "pop_front", "pop_back") and re.search(r"Vec|VecDeque|SmallVec|\[", (body.blocks[bi].term.callee.def_args or "") + (body.blocks[bi].term.callee.name or ""))]
+        feeds = [bi for bi in bl if body.blocks[bi].term.k == "call" and body.blocks[bi].term.callee.method in ("push", "extend", "push_back", "extend_from_slice", "append")]
+        if takes and feeds:
+            return h, bl
+    return None
+
+
+def quantified_cache_tests(prog, body, pvn, pv):
+    """`<parents>.iter().all(|p| cached(p))` / `.any(..)` calls of `body`: list of (bb, 'all'|'any', polarity of the cache test inside the closure)"""
+    from engines import bool_polarity
+    out = []
+    for bi, t in body.calls():
+        if t.callee.trait == "std::iter::Iterator" and t.callee.method in ("all", "any") and len(t.args) == 2:
+            cb = prog.bodies.get(pv.closure_of_operand(body, t.args[1]) or "")
+            if cb is None:
+                continue
+            pol, ct = bool_polarity(cb, pvn, lambda c: (c.res or "").endswith("HpoTermInternal::parents_cached"))
+            if pol is not None:
+                out.append((bi, t.callee.method, pol, t))
+    return out
+
+
+def tests_dominating(body, pvn, tests, bi):
+    """some cache test of the body itself has an out-edge that dominates block bi (the read stands under SOME cache test, right or wrong)"""
+    for tbi, tt in tests:
+        for sb in sorted(body.reach):
+            x = body.blocks[sb].term
+            if x.k == "switch" and any(body.edge_dominates((sb, tg), bi) for tg in x.successors()) and any(a[0] == "call" and a[3] == body.id and a[4] == tbi for a in pvn.of_operand(body, x.discr)):
+                return True
+    return False
+
+
+def local_set(body, pvn, op):
+    """the operand is (a borrow of) a set variable created in this body by a constructor call"""
+    from engines import user_root_locals
+    for l in user_root_locals(body, pvn, op):
+        ds = pvn.defs(body).get(l, [])
+        if len(ds) == 1 and ds[0][0] == "call" and ds[0][2].callee.method in ("new", "with_capacity", "default", "with_capacity_and_hasher", "with_hasher"):
+            return True
+    return False
+
+
 def source_of_ref(body, defs, local):
     """the local that `local` is a (re)borrow / copy of"""
     seen = set()
@@ -370,6 +415,14 @@ def run(ck, prog, ctx):
                 ck.ob("PHASE", "connect/loop/%d/every" % i, not skipped and lp["some"] not in (), "%s: `build the ancestor cache` %s" % (cat.short, "runs for every term of the arena that is not reported as cached already" if not skipped else "is SKIPPED for some elements of the terms of the arena (a `continue` or a guard other than the cached-test bypasses it)"), where=cat.where())
                 continue
             if steps:
+                # a visited-set guard (`if scheduled.insert(id) { .. }` on a set that lives in this function): terms skipped here were handled on behalf
+                # of another term - whether that really built their cache is the work list's business, not decided by the per-element rule
+                from engines import loop_skip_path as _lsp2
+                vis = [(vbi, vt) for vbi, vt in cat.calls() if vbi in lp["blocks"] and vt.callee.method in ("insert", "contains") and re.search(r"HashSet|BTreeSet", (vt.callee.def_args or "") + (vt.callee.name or "")) and vt.args and vt.args[0].place is not None
+                       and local_set(cat, pvn, vt.args[0])]
+                if vis and _lsp2(cat, lp, steps) and any(any(cat.edge_dominates(e_, sb_) for e_ in positive_edges(cat, pvn, vbi)) for vbi, vt in vis for sb_ in steps):
+                    ck.undecided("PHASE", "connect/loop/%d/every" % i, "%s builds the cache only for terms that a local visited set has not seen (`%s`, line %s): that the skipped terms were completed on behalf of another term is not decided here" % (cat.short, vis[0][1].callee.method, vis[0][1].line), where=cat.where(vis[0][1].line))
+                    continue
                 check_every_element(ck, "PHASE", "connect/loop/%d" % i, cat, lp, steps, "build the ancestor cache", "the terms of the arena")
         hard = hard_truncations(prog, cat)
         ck.ob("PHASE", "connect/complete-iteration", not hard, "connect_all_terms %s" % ("iterates the enumerated terms completely" if not hard else "drops terms with `%s` (line %s)" % (hard[0][1].callee.method, hard[0][1].line)), where=cat.where())
@@ -384,7 +437,13 @@ def run(ck, prog, ctx):
                     og_ = origins(_wb, pvn, t.args[0])
                     return any(o[0] == "call" and o[1] == TI + "::parents" for o in og_) or ("field", TI, "parents") in og_
                 return False
-            check_required_steps(ck, "ROLE", prog, wb_, [("write the cache", lambda t: any(t.callee.res == a.id for a in accessor_mut)), ("visit every direct parent", visit_or_none)])
+            steps_ = [("write the cache", lambda t: any(t.callee.res == a.id for a in accessor_mut)), ("visit every direct parent", visit_or_none)]
+            if worklist_loop(wb_) is not None and not any(to_writer(t_) for _, t_ in wb_.calls()):
+                # an explicit work list instead of recursion: parents are "visited" by being put on the list; that every pass of the loop ends with the
+                # cache written is the loop's own progress argument, which the step rule (phrased over the recursive form) does not make
+                ck.undecided("ROLE", "required-step/%s/visit every direct parent" % wb_.short, "%s builds the caches with an explicit work list (no recursion): the recursive form's step rule does not apply" % wb_.short, where=wb_.where())
+                steps_ = []
+            check_required_steps(ck, "ROLE", prog, wb_, steps_)
 
     # ------------------------------------------------------------------ PHASE: every direct parent contributes its closure
     # (a `continue` / guard that skips the accumulation for some parents - "redundant edge" shortcuts - loses ancestors)
@@ -512,6 +571,23 @@ def run(ck, prog, ctx):
                             for a in pvn.of_operand(w, ct.args[0]):
                                 if a[0] == "call" and a[3] == w.id and a[1].startswith(ARENA + "::get"):
                                     pk |= params_of(pvn.of_operand(w, w.blocks[a[4]].term.args[1]), w.id)
+                    if not rk and not pk:
+                        # the term is not a parameter (it comes off a work list): compare the user variables the two keys are copies of
+                        from engines import user_root_locals as _url
+                        rv_, pv2_ = set(), set()
+                        for a in pvn.of_operand(w, t.args[0]):
+                            if a[0] == "call" and a[3] == w.id and a[1].startswith(ARENA + "::get"):
+                                rv_ |= _url(w, pvn, w.blocks[a[4]].term.args[1])
+                        for cbi, ct in w.calls():
+                            if ct.callee.res == TI + "::parents":
+                                for a in pvn.of_operand(w, ct.args[0]):
+                                    if a[0] == "call" and a[3] == w.id and a[1].startswith(ARENA + "::get"):
+                                        pv2_ |= _url(w, pvn, w.blocks[a[4]].term.args[1])
+                        if rv_ and pv2_:
+                            ck.ob("ROLE", "cache-write/%s/same-term" % w.short, rv_ == pv2_ and len(rv_) == 1, "the cache of term `%s` is built from the parents of term `%s`" % ("/".join(w.local_name(p) for p in sorted(rv_)), "/".join(w.local_name(p) for p in sorted(pv2_))), where=w.where(s.line))
+                        else:
+                            ck.undecided("ROLE", "cache-write/%s/same-term" % w.short, "the term whose cache is written / whose parents are read is not keyed by a parameter or a named variable", where=w.where(s.line))
+                        continue
                     ck.ob("ROLE", "cache-write/%s/same-term" % w.short, rk == pk and len(rk) == 1, "the cache of term `%s` is built from the parents of term `%s`" % ("/".join(w.local_name(p) for p in rk), "/".join(w.local_name(p) for p in pk)), where=w.where(s.line))
     # a parent's closure is only read once it is known to be built: every read of `all_parents` in the cache-building code is
     # preceded on every path by the cache test (positive edge) or by a call that builds that cache
@@ -532,6 +608,24 @@ def run(ck, prog, ctx):
             for e in positive_edges(b, pvn, tbi):
                 pos_edges.add(e)
         build_blocks = {bi for bi, t in b.calls() if t.callee.res in builders}
+        # `parents.iter().all(|p| cached(p))`: its true edge is a cache test for EVERY parent (`any` is a test for some parent only - not a guard)
+        quant = quantified_cache_tests(prog, b, pvn, pv)
+        wrong_quant = []
+        for qbi, qm, qpol, qt in quant:
+            if (qm == "all" and qpol == 1):
+                for e in positive_edges(b, pvn, qbi):
+                    pos_edges.add(e)
+            elif (qm == "any" and qpol == -1):
+                # !any(|p| !cached(p))  ==  all(cached): the FALSE edge of the call
+                pe_ = set(positive_edges(b, pvn, qbi))
+                for sbi_ in sorted(b.reach):
+                    x_ = b.blocks[sbi_].term
+                    if x_.k == "switch" and any(e[0] == sbi_ for e in pe_):
+                        for tg_ in x_.successors():
+                            if (sbi_, tg_) not in pe_:
+                                pos_edges.add((sbi_, tg_))
+            elif qm == "any" and qpol == 1:
+                wrong_quant.append((qbi, qt))
         for bi, t in reads:
             nreads += 1
             # is the read reachable from the entry without passing a positive cache test edge or a cache-building call?
@@ -551,8 +645,15 @@ def run(ck, prog, ctx):
                     if (x, y) in pos_edges:
                         continue
                     st.append(y)
+            key_r = "cache-read/%s/%d" % (b.short, len([1 for r in reads if r[0] < bi]))
+            if reached and wrong_quant and any(any(b.edge_dominates(e, bi) for e in positive_edges(b, pvn, qbi)) for qbi, qt in wrong_quant):
+                ck.ob("ROLE", key_r, False, "%s reads the parents' ancestor caches once ANY parent is cached (`any`, line %s): the caches of the other parents may not be built yet - it takes `all`" % (b.short, wrong_quant[0][1].line), where=b.where(t.line))
+                continue
+            if reached and worklist_loop(b) is not None and not tests_dominating(b, pvn, tests, bi):
+                ck.undecided("ROLE", key_r, "%s (work-list form) reads a parent's cache under a readiness argument that is not a cache test on the path (`all(cached)` / `parents_cached()`), e.g. a length comparison after feeding the list: not decided" % b.short, where=b.where(t.line))
+                continue
             # the term whose cache is read: the function's own term (being written right now) is exempt
-            ck.ob("ROLE", "cache-read/%s/%d" % (b.short, len([1 for r in reads if r[0] < bi])), not reached,
+            ck.ob("ROLE", key_r, not reached,
                   "%s reads a term's ancestor cache %s" % (b.short, "only after the cache test succeeded or the cache was built" if not reached else "(line %s) on a path where it may not be built yet: ancestors are silently missing depending on the order of terms" % t.line), where=b.where(t.line))
     ck.floor("ROLE", "ancestor-cache reads in the cache construction", nreads, 1)
 
